@@ -77,20 +77,7 @@ func StressSchema(r *rand.Rand, doc any, draft Draft) string {
 	}
 	switch kind := r.IntN(9); kind {
 	case 8: // a deep nest of in-place applicators around one leaf: the work must stay linear in the depth
-		n := Pick(r, ChainSizes)
-		var cur any = stressLeaf(r)
-		kws := []string{"allOf", "anyOf", "oneOf"}
-		if r.IntN(2) == 0 {
-			kws = []string{Pick(r, kws)} // one keyword all the way down
-		}
-		for i := 0; i < n; i++ {
-			kw := Pick(r, kws)
-			a := []any{cur}
-			if kw != "allOf" && r.IntN(3) == 0 {
-				a = append(a, false)
-			}
-			cur = map[string]any{kw: a}
-		}
+		cur, n := DeepNest(r)
 		attach(cur)
 		return fmt.Sprintf("nest%d", n)
 	case 0, 1: // a long chain of $ref hops ending in a real schema
@@ -218,6 +205,25 @@ func StressSchema(r *rand.Rand, doc any, draft Draft) string {
 		m[kw] = dr
 		return fmt.Sprintf("wide-%s%d", kw, n)
 	}
+}
+
+// DeepNest returns a leaf wrapped in n (7..129) levels of single-branch allOf / anyOf / oneOf, and n.
+func DeepNest(r *rand.Rand) (any, int) {
+	n := Pick(r, ChainSizes)
+	var cur any = stressLeaf(r)
+	kws := []string{"allOf", "anyOf", "oneOf"}
+	if r.IntN(2) == 0 {
+		kws = []string{Pick(r, kws)} // one keyword all the way down
+	}
+	for i := 0; i < n; i++ {
+		kw := Pick(r, kws)
+		a := []any{cur}
+		if kw != "allOf" && r.IntN(3) == 0 {
+			a = append(a, false)
+		}
+		cur = map[string]any{kw: a}
+	}
+	return cur, n
 }
 
 func dedupStrings(in []any) []any {
